@@ -22,6 +22,9 @@ import (
 	"strconv"
 )
 
+// MaxBulkLength is the longest bulk string the parser accepts (512 MiB, the limit of Redis itself).
+const MaxBulkLength = 512 * 1024 * 1024
+
 // Paser represents a Redis serialization protocol (RESP) parser.
 type Parser struct {
 	reader io.Reader
@@ -71,6 +74,9 @@ func (parser *Parser) nextLineBytes() ([]byte, error) {
 
 // get next bulk message bytes of length num.
 func (parser *Parser) nextLengthBytes(num int) ([]byte, error) {
+	if MaxBulkLength < num {
+		return nil, fmt.Errorf(errorTooLongBulkString, num, MaxBulkLength)
+	}
 	n := num + 2 // + crlf
 	buf := make([]byte, n)
 	totalRead := 0
